@@ -149,6 +149,22 @@ def oracle(ctx, budget=1, replay=None, hints=None):
         if res[0][1] != 'suppress':
             fails.append(dict(what='an arc passing 1.5 units deep through a region is not excluded (%s)' % res[0][1], signature='C16:arc-not-excluded',
                               case=dict(start=[x0r, y0r], end=[x1, y1], centre=[cx, cy], region=[mx - 1.5, my - 1.5, mx + 1.5, my + 1.5])))
+    # nearly closed arcs that go the long way round: start and end less than a unit apart, arc length many units
+    for _ in range(100 * budget):
+        n += 1
+        cx, cy, rad = ctx.rng.uniform(50, 150), ctx.rng.uniform(50, 150), ctx.rng.uniform(2, 30)
+        a0 = ctx.rng.uniform(-math.pi, math.pi)
+        gap = ctx.rng.uniform(0.05, 0.9) / rad                     # chord below one unit
+        ccw = ctx.rng.random() < 0.5
+        a1 = a0 - gap if ccw else a0 + gap                           # the long way round
+        x0, y0 = cx + rad * math.cos(a0), cy + rad * math.sin(a0)
+        x1, y1 = cx + rad * math.cos(a1), cy + rad * math.sin(a1)
+        set_pos(h, x0, y0)
+        pts = h.planArc(x1, y1, cx - x0, cy - y0, not ccw)
+        want = max(1, int(math.ceil((2 * math.pi - gap) * rad)))
+        if len(pts) // 2 < want - 1:
+            fails.append(dict(what='an arc of length %.1f (start and end %.2f apart, the long way round) is tested at %d points only' % ((2 * math.pi - gap) * rad, gap * rad, len(pts) // 2),
+                              signature='C16:sampling', case=dict(start=[x0, y0], end=[x1, y1], ij=[cx - x0, cy - y0], clockwise=not ccw)))
     # centre exactly level with / above the start point (I or J is 0 or omitted), and arcs run while no region is defined: the arc is
     # sampled and tracked all the same
     for _ in range(150 * budget):
